@@ -314,4 +314,21 @@ example : ∃ out pc, printF exactA cfgNow 4 (.fin false 12345) false 0 0 {} tru
 theorem print_f_fuel_witness :
     resOf (printF exactA cfgNow 3 (.fin false 12345) false 0 0 {} true false) = .diverged := by decide +kernel
 
+/-- **witness for the repaired defect C13-long-double-overflow**: the long double 1e400L
+(sign+exponent 0x4530, significand 0xed7fbd2d2e1d1d00) narrows to +inf, and on +inf the loop
+`while (ip >= base)` of the finite path — which the code entered before the fix, because it
+tested isinf on the long double — never ends: `diverged` for EVERY fuel, over binary64. -/
+theorem print_f_L_overflow_witness (fuel : Nat) (ep : FV) :
+    cvt64 (ofBits80 0x4530 0xed7fbd2d2e1d1d00) = .inf false ∧
+    normDown b64A fuel (b64A.modf (.inf false)).2 (b64A.modf (.inf false)).1 ep = .error .diverged := by
+  refine ⟨by decide +kernel, ?_⟩
+  have h0 : b64A.modf (.inf false) = (.fin false 0, .inf false) := rfl
+  rw [h0]
+  have h1 : b64A.ge (.inf false) b64A.ten = true := by decide +kernel
+  have h2 : b64A.modf (b64A.div (b64A.add (.inf false) (.fin false 0)) b64A.ten) = (.fin false 0, .inf false) := by
+    decide +kernel
+  induction fuel generalizing ep with
+  | zero => simp [normDown, h1]
+  | succ n ih => simp only [normDown, h1, if_true, h2]; exact ih _
+
 end Igris.C13
